@@ -17,6 +17,9 @@ BOUNDS = {
     'quick': '12 stacks of the C04 catalogue x {daily, intraday} x fee/bid-offer on/off, last date symbolic (prices in [0.5,1000], stats, weights, coupons, unit risks), '
              'fractional positions; 7 ill-formed classes; witness replays on source and compiled build',
     'thorough': 'adds whole-unit positions on concrete data and two symbolic dates',
+    'wellformed_costs': 'daily rebalance of two securities with multipliers {1,10,50}x{1,2}, commission families per-share / proportional / max(fixed, per-share), '
+                        'long and long/short targets, 3 dates with concrete prices, symbolic initial capital in [1e5,1e7] (a symbolic price makes the sizing search '
+                        'a rational function of growing degree: outside the claim); spread on in thorough',
 }
 ASSUMPTIONS = ['bt\'s documented zero-base ZeroDivisionError ends a path (it is one of the ill-formed classes)',
                'whole-unit sizing exceptions are C05\'s known findings and are not re-reported here (symbolic runs use fractional positions)']
@@ -71,6 +74,39 @@ def h_wellformed(run, cfg):
         run.check(True, 'wellformed-run-completes')
     finally:
         guards['undo']()
+
+
+def h_wellformed_costs(run, cfg):
+    """Daily rebalance of two securities with contract multipliers under a commission (and optionally a spread): the sizing search of
+    SecurityBase.allocate has to converge on every well-formed price path."""
+    B = bt()
+    A = B.algos
+    C = B.core
+    from harness.common import fee_fn
+    dts = dates(3)
+    ma, mb = cfg['mults']
+    sym = cfg.get('sym', [])
+    base = {'a': [100.0, 104.0, 98.0], 'b': [37.5, 36.0, 40.0]}
+    data = frame(run, dts, ['a', 'b'], lambda i, c: run.real('p_%s%d' % (c, i), 10, 200) if [c, i] in sym else base[c][i])
+    kids = [C.Security('a', multiplier=ma), C.Security('b', multiplier=mb)]
+    s = B.Strategy('s', [A.RunDaily(), A.SelectAll(), A.WeighSpecified(a=cfg['w'][0], b=cfg['w'][1]), A.Rebalance()], kids)
+    add = None
+    if cfg.get('spread'):
+        add = {'bidoffer': frame(run, dts, ['a', 'b'], lambda i, c: 0.25)}
+    t = B.Backtest(s, data, initial_capital=run.real('cap', 10 ** 5, 10 ** 7), integer_positions=False, commissions=fee_fn(*cfg['fee']), additional_data=add)
+    try:
+        t.run()
+    except Exception as e:
+        run.fail('wellformed-run-completes', 'mults %r fee %r: %r' % (cfg['mults'], cfg['fee'], e))
+    st = t.strategy
+    for m in st.members:
+        if isinstance(m, C.StrategyBase):
+            for nm in ('_values', '_prices', '_cash', '_fees'):
+                ser = getattr(m, nm)
+                for d in ser.index:
+                    if d <= st.now and not finite(ser[d]):
+                        run.fail('recorded-numbers-finite', '%s.%s@%s = %r' % (m.full_name, nm, d, ser[d]))
+    run.check(True, 'wellformed-run-completes')
 
 
 def expect_raises(run, label, fn, detail=''):
@@ -141,12 +177,13 @@ def h_illformed(run, cfg):
         s.update(dts[0])
         s.adjust(10000.0)
         q = run.real('q', 1, 50)
-        expect_raises(run, 'custom-price-without-bidoffer-rejected', lambda: s['a'].transact(q, price=99.0))
+        px = run.real('px', -10, 200)          # any custom price, zero included
+        expect_raises(run, 'custom-price-without-bidoffer-rejected', lambda: s['a'].transact(q, price=px), 'custom price %r' % (px,))
     else:
         raise ValueError(kind)
 
 
-HARNESSES = {'wellformed': h_wellformed, 'illformed': h_illformed}
+HARNESSES = {'wellformed': h_wellformed, 'wellformed_costs': h_wellformed_costs, 'illformed': h_illformed}
 WITNESS_CAP = {'quick': 200, 'thorough': 400}
 COMPILED_REPLAY = {'quick': True, 'thorough': True}
 ILL = ['trade-at-nan-or-zero-price', 'nan-price-on-open-position', 'nan-coupon-on-open-position', 'duplicate-columns', 'zero-base',
@@ -171,6 +208,12 @@ def plan(tier):
                 # TargetVol before enough history yields NaN weights; with whole-unit positions Rebalance then raises on floor(NaN): outside the
                 # well-formed class (the stack would be gated by RunAfterDays in practice)
                 tasks.append(dict(harness='wellformed', cfg=dict(stack=st, lag=0, int=1, symdates=0), opts=opts))
+    copts = dict(max_paths=400, timeout_ms=10000, max_seconds=200 if quick else 900)
+    for mults in ([1.0, 1.0], [10.0, 1.0], [50.0, 2.0]):
+        for fee in (['pershare', 2.5], ['prop', 0.001953125], ['maxfixed', [1.0, 0.0625]]):
+            for spread in ((0,) if quick else (0, 1)):
+                for w in ([0.625, 0.25], [0.75, -0.25]):
+                    tasks.append(dict(harness='wellformed_costs', cfg=dict(mults=mults, fee=fee, spread=spread, w=w), opts=copts))
     for k in ILL:
         tasks.append(dict(harness='illformed', cfg=dict(kind=k), opts=opts))
     return tasks
